@@ -11,6 +11,8 @@
      internal/context.go:106 pxContext.Fork (copy stack and vars, parented loader)       -> fork_ctx
      internal/context.go:122..227 Get/Set/Delete/SetLoader/Stack/StackPush/StackPop      -> PSet .. PPop
      internal/runtime.go:239 rt.Do / Try / DoWithParent                                  -> PDo
+     internal/runtime.go:250 rt.DoWithParent(c px.Context, actor) = c.Fork() made current -> PDoCtx _ CFork
+     threadlocal/gid.go:14   getg (the index of the table)                               -> Model/CtxGid.v
      loader/loader.go:67     load; :113 basicLoader.SetEntry; :166 parentedLoader.LoadEntry -> load_entry / set_entry
 
    The machine is an interleaving machine: `step g c` performs ONE atomic step of goroutine g (one statement,
@@ -24,7 +26,8 @@ From PcoreV Require Import Model.Base.
 Import ListNotations.
 Local Open Scope nat_scope.
 
-Definition gid := nat.       (* goroutine id: threadlocal/gid.go:14 getg(); injective for live goroutines (Go runtime) *)
+Definition gid := nat.       (* the goroutine.  gid.go indexes the table by threadlocal/gid.go:14 getg(): modelled in
+                                Model/CtxGid.v, injective by C14_getg_keys_distinct (Proofs/CtxGidProofs.v) *)
 Definition addr := nat.      (* address of a *pxContext in the heap *)
 Definition laddr := nat.     (* address of a loader in the heap *)
 Definition label := N.       (* name given by the program node that creates a context / loader / observation *)
